@@ -216,6 +216,7 @@ def error_rec(e):
                 r["trace"] = [node_rec(n) for n in e.stack_traceback(-1)]
                 r["trace5"] = [node_rec(n) for n in e.stack_traceback(5)]
                 r["trace1"] = [node_rec(n) for n in e.stack_traceback(1)]
+                r["trace0"] = [node_rec(n) for n in e.stack_traceback(0)]
             except Exception as e2:  # trace rendering must not fail (C09/C10)
                 r["trace"] = {"trace_crash": type(e2).__name__}
             try:
